@@ -132,7 +132,7 @@ theorem rep_val {c : CS} {P defs} (hj : J c P defs) (X : I) (n : Nat) (cond : Li
     (some output directive with that name has a true condition) iff it is shown by the emitted program under `E X`
     (where every output directive is conditioned on one atom: the image of the single positive literal, or the
     auxiliary atom defined by the condition). -/
-theorem C02_equivalence (ext inc : Bool) (ds : List Call) (hx : ∀ d ∈ ds, PlainOk d) (hE : ext = false ∨ extCalls ds = []) :
+theorem C02_equivalence (ext inc : Bool) (ds : List Call) (hx : ∀ d ∈ ds, PlainOk d) (hnh : ∀ d ∈ ds, isHeu d = false) (hE : ext = false ∨ extCalls ds = []) :
     ∃ E : I → I,
       (∀ X, Stable (progOf ds) X →
         Stable (rulesOf (convert ext (stepCalls inc ds)).out) (E X) ∧ E X 1 = false ∧ restrict (convert ext (stepCalls inc ds)) (E X) = X) ∧
@@ -155,7 +155,7 @@ theorem C02_equivalence (ext inc : Bool) (ds : List Call) (hx : ∀ d ∈ ds, Pl
     exact ⟨(stable_filter_kept_app _ _ _).mp h2, h3.symm⟩
   · intro X name
     have houts : outsOf (convert ext (stepCalls inc ds)).out = (sortSyms (preEnd ext inc ds).output).map (fun p => (p.2, [(p.1 : Int)])) := by
-      rw [convert_step]; exact final_outs _ hj0.nofail hshape hj0.noheur hk.noout
+      rw [convert_step]; exact final_outs _ hj0.nofail hshape (preEnd_noheur ext inc ds hx hnh) hk.noout
     unfold shown shownOut
     rw [houts]
     constructor
@@ -234,7 +234,7 @@ theorem costM_ren {c : Ctx} (ok : c.Ok) (X : I) (l : List (Int × List (Int × I
     cost in the given program minus a constant — the sum of the negative weights of that priority (they were moved to
     the complementary literals).  So the order of answer sets by cost, priority by priority, is the same.
     (`C02_minimize_sorted` + `flushMinimize_order`: one emitted statement per priority, lower priorities first.) -/
-theorem C02_cost (ext inc : Bool) (ds : List Call) (hx : ∀ d ∈ ds, PlainOk d) (hE : ext = false ∨ extCalls ds = []) :
+theorem C02_cost (ext inc : Bool) (ds : List Call) (hx : ∀ d ∈ ds, PlainOk d) (hnh : ∀ d ∈ ds, isHeu d = false) (hE : ext = false ∨ extCalls ds = []) :
     ∃ E : I → I,
       (∀ X, Stable (progOf ds) X →
         Stable (rulesOf (convert ext (stepCalls inc ds)).out) (E X) ∧ E X 1 = false ∧ restrict (convert ext (stepCalls inc ds)) (E X) = X) ∧
@@ -257,7 +257,7 @@ theorem C02_cost (ext inc : Bool) (ds : List Call) (hx : ∀ d ∈ ds, PlainOk d
     have hcs := convert_step ext inc ds
     have hag : Agree ((preEnd ext inc ds).apply .endStep) (finalMap (convert ext (stepCalls inc ds))) := by
       rw [← hcs]; exact agree_final _ hj.inv
-    obtain ⟨g1, g2⟩ := final_mins _ hj0.nofail hshape hj0.noheur hM.nomin hj0.inv _ hag
+    obtain ⟨g1, g2⟩ := final_mins _ hj0.nofail hshape (preEnd_noheur ext inc ds hx hnh) hM.nomin hj0.inv _ hag
     rw [← hcs] at g1 g2
     unfold costAt
     rw [g1]
